@@ -564,7 +564,6 @@ func sliceHasCallTo(sl map[ssa.Value]bool, pkg, name string) bool {
 	})
 }
 
-
 // walkMutators: a reference value (pointer, map, slice, interface) handed to a
 // call whose body is not analysed may be written through by that call; the
 // value then depends on the call's other arguments.
